@@ -137,16 +137,34 @@ def rule_current_width(ctx, crate, rule="R-TES-CURRENT-WIDTH"):
                 ctx.check(ok, rule, "setter:%s:%s" % (K.meth(K.owner_fn(crate, b)), fs[-1][2]), b.name, c.loc(),
                           "the text is expanded with the bar's current tab_width", "the new %s is expanded with a width that is not the bar's current tab_width" % fs[-1][2], cfg)
                 # same bar: the store target and the width source have the same base
-    ctx.floor(rule, n, 6, cfg, "text setters")
+    ctx.floor(rule, n, 4, cfg, "text setters")
     # parser: literals use the parser's width parameter
     p = K.find_one(ctx, crate, rule, r"style::Template::from_str_with_tab_width")
     if p:
-        cs = p.calls(TES_NEW)
-        ctx.floor(rule, len(cs), 3, cfg, "literal constructions in the parser")
-        for k, c in enumerate(cs):
+        n_lit = 0
+        for k, c in enumerate(p.calls(TES_NEW)):
+            n_lit += 1
             wsl = p.slice_args(c, [1])
             ctx.check(wsl.params() == {2} and not wsl.calls, rule, "parser-literal#%d" % k, p.name, c.loc(),
                       "template literals are expanded with the parser's tab_width parameter", "a template literal is expanded with a different width", cfg)
+        # literal construction extracted into a private helper of the parser: the helper forwards one of its parameters,
+        # and the parser passes its own tab_width there
+        for hc in p.calls():
+            if not hc.callee.get("local"):
+                continue
+            for tn in crate.resolve_targets(hc):
+                h = crate.bodies.get(tn)
+                if h is None or h.api or h.kind == "Closure" or not h.calls(TES_NEW):
+                    continue
+                for c in h.calls(TES_NEW):
+                    n_lit += 1
+                    ps = h.slice_args(c, [1]).params()
+                    okh = len(ps) == 1 and not h.slice_args(c, [1]).calls
+                    okc = okh and p.slice_args(hc, [next(iter(ps)) - 1]).params() == {2} and not p.slice_args(hc, [next(iter(ps)) - 1]).calls
+                    ctx.check(okc, rule, "parser-literal-via:%s" % K.meth(h.name), p.name, hc.loc(),
+                              "the helper expands the literal with the width the parser passes, which is its tab_width parameter",
+                              "a template literal built through %s is expanded with a different width" % h.name, cfg)
+        ctx.floor(rule, n_lit, 3, cfg, "literal constructions in the parser")
 
 
 def holders(crate, root="state::BarState"):
